@@ -1,7 +1,7 @@
 """Single source for MANIFEST.json (bin/mkmanifest)."""
 
 HOOK_COMMITS = ["673019b", "625d9ba", "1d37b76"]
-FIX_COMMITS = ["12c9092", "3e9b6da", "a55c868", "72a27af", "81e61a6"]   # filled by bin/mkmanifest callers: /repo commits that add guarded hooks
+FIX_COMMITS = ["12c9092", "3e9b6da", "a55c868", "5489af8", "72a27af", "81e61a6"]   # filled by bin/mkmanifest callers: /repo commits that add guarded hooks
 
 NOTES = ("All checks: bin/check <id>. Exit 0 = held, 1 = VIOLATION line + replay file, 2 = tool error (never a verdict). "
          "Specs under spec/<family>/, harness under harness/ (path deps on /repo; rebuilt by every check). "
@@ -96,6 +96,10 @@ CHECKS["C42"] = dict(engine="tlc+vh", level="model_checking", ref="4.21", techni
                      text="For all 2 096 programs of the grammar (nested loops, inclusive/exclusive/empty ranges, multi-declaration bodies) the parsed program equals the parse of the spec's expansion.", note=MISC_NOTE)
 CHECKS["C46"] = dict(engine="tlc+vh", level="model_checking", ref="4.21", technique="TLA+ spec (EventFile.tla) enumerates with TLC every file of <= 3 (4) lines over 15 line forms with its reference meaning; both real readers run on each and are compared",
                      text="Exhaustive over the bounded file space: the two readers must produce the same event sequence (types and field values) or both reject.", note=MISC_NOTE)
+
+CHECKS["C21"] = dict(engine="tlc+vh", level="model_checking", ref="4.10", technique="TLA+ spec (CkptStore.tla) model-checked with TLC (crash between any two file-system steps, corruption, restart); crash schedules from CkptGen.tla executed on the real FileStore/CheckpointManager under a crashing store wrapper; recorded observations validated by TLC (CkptTrace.tla)",
+                     text="Design: all five invariants hold on the fallback design and the no-fallback switch violates one. Implementation: every (retention, history, crash phase, corruption) combination of the bound is executed and TLC checks newest-complete recovery, fallback, retention bound and id monotonicity on what was observed.",
+                     note="Trusted: the store wrapper's emulation of partial FileStore::put / prune effects. Bounded: retention 1..3, <= 9 checkpoints, 8 crash phases, truncation as the corruption.")
 
 NOT_APPLICABLE = {
     "C41": "parser totality over arbitrary strings: no state/transition system to specify; a TLA+ model would only enumerate token strings (fuzzing under another name)",
